@@ -447,7 +447,7 @@ Print Assumptions C16_former_counterexamples_refused.
    16 characters says) and optionally Floating Point Value (v2 = fp_code x; 0 = absent).  `map_num fn` rewrites
    these two numbers on every NUM item of a tree; `encode trunc` = what writing + reading a data set does
    (Numeric Value x comes back as trunc x, for ANY function trunc); `with_fp fl` = what sr.Measurement writes for
-   values given as Python floats.  `built fl trunc g` = encode trunc (with_fp fl (build g)). *)
+   the values fl (Python floats, ints of more than 16 characters).  `built fl trunc g` = encode trunc (with_fp fl (build g)). *)
 
 (* NumContentItem.value: the exact attribute has precedence; without it the value is Numeric Value *)
 Theorem C16_value_prefers_floating_point :
@@ -492,18 +492,40 @@ Proof. exact numeric_value_first_refuted. Qed.
 Print Assumptions C16_numeric_value_first_refuted.
 
 (* the property sentence for a report that went through DICOM encoding: for every query kind, every report of good
-   records, every accepted filter combination, every set `fl` of values given as floats and every DS behaviour
-   `trunc` that is exact on the other values, the query on the ENCODED report returns exactly the groups of its
-   kind satisfying every filter, in document order, and every returned group shows through every accessor what its
-   record says - the measurement values included *)
+   records (measurement values = the doubles float(value) of the numbers given), every accepted filter combination,
+   `fl` = the values for which the constructor writes Floating Point Value (floats, ints of more than 16 characters)
+   and every DS behaviour `trunc` that is exact where none is written (ints of at most 16 characters, written digit
+   by digit), the query on the ENCODED report returns exactly the groups of its kind satisfying every filter, in
+   document order, and every returned group shows through every accessor what its record says - the measurement
+   values included.  No premise on the values of the report is left (fix D111). *)
 Theorem C16_end_to_end_encoded : forall fl trunc k pre gs f mname ename,
+  no_im pre = true -> Forall good gs -> qcheck k f = Ok tt -> (forall x, fl x = false -> trunc x = x) ->
+  let answer := filter (fun g => kind_eqb (g_kind g) k && satk k f g) gs in
+  query k (encode trunc (with_fp fl (report pre gs))) f = Ok (map (built fl trunc) answer) /\
+  map (fun it => acc_val k it mname ename) (map (built fl trunc) answer)
+  = map (fun g => spec_acc k g mname ename) answer.
+Proof. exact end_to_end_encoded_constructed. Qed.
+Print Assumptions C16_end_to_end_encoded.
+
+(* the general form (any fl, any trunc): it suffices that each value OF THE REPORT carries Floating Point Value or
+   has an exact DS string *)
+Theorem C16_end_to_end_encoded_general : forall fl trunc k pre gs f mname ename,
   no_im pre = true -> Forall good gs -> qcheck k f = Ok tt -> Forall (values_ok fl trunc) gs ->
   let answer := filter (fun g => kind_eqb (g_kind g) k && satk k f g) gs in
   query k (encode trunc (with_fp fl (report pre gs))) f = Ok (map (built fl trunc) answer) /\
   map (fun it => acc_val k it mname ename) (map (built fl trunc) answer)
   = map (fun g => spec_acc k g mname ename) answer.
 Proof. exact end_to_end_encoded. Qed.
-Print Assumptions C16_end_to_end_encoded.
+Print Assumptions C16_end_to_end_encoded_general.
+
+(* and the condition on the DS string cannot be dropped: without Floating Point Value a rounded string is what comes
+   back (ints of more than 16 characters before fix D111) *)
+Theorem C16_ds_premise_needed :
+  let g := Group ImageK 1 1000 None None None [] (SourceImgs []) [(140, 33333)] [] None None None true in
+  good g /\ acc_measurements (built (fun _ => false) (fun _ => 33) g) None = [(140, 33)] /\
+  acc_measurements (built (fun _ => true) (fun _ => 33) g) None = [(140, 33333)].
+Proof. exact ds_premise_needed. Qed.
+Print Assumptions C16_ds_premise_needed.
 
 (* the observation of the correspondence run for encoded reports = the one for the report that never was *)
 Theorem C16_run_accessors_enc_exact : forall floats tbl pre gs mname ename, no_im pre = true -> Forall good gs ->
